@@ -499,6 +499,10 @@ def discharge2(b, s):
             return None
         if tr[0] <= r[0] and r[1] <= tr[1]:
             return "result in [%s, %s] fits %s" % (r[0], r[1], ty)
+        if op == "Add" and y == (1, 1):
+            r = _below_something(b, a, bb)
+            if r:
+                return r
     if k == "index:slice":
         return _discharge_range(b, s)
     if k == "call:copy_from_slice":
@@ -521,6 +525,53 @@ def discharge2(b, s):
             if so[0] == "call" and so[1].callee.get("name") == "is_char_boundary" and list(vals) != ["0"]:
                 if mir.o_str(b.origin(so[1].args[1])) == mir.o_str(mid) and _sid(b, so[1].args[0]) == _sid(b, cs.args[0]):
                     return "split_at(n) dominated by is_char_boundary(n) on the same str"
+    return None
+
+
+def _raw_local(b, op, bb):
+    """the local an operand reads, seen through same-block single-definition copies (`_5 = copy _2; Lt(move _5, ..)`)"""
+    l = b._op_local(op)
+    hops = 0
+    while l is not None and hops < 4:
+        ds = [d for d in b.defs().get(l, ()) if d[2] != "partial"]
+        if len(ds) == 1 and ds[0][2] == "assign" and ds[0][3]["k"] == "use" and b._op_local(ds[0][3]["op"]) is not None \
+                and not b.local_name(l):
+            l = b._op_local(ds[0][3]["op"])
+            hops += 1
+            continue
+        break
+    return l
+
+
+def _below_something(b, op, bb):
+    """`x + 1` cannot overflow where a dominating branch established `x < y` (or `y > x`) for some y of the same type and x
+    is not written between that branch and the addition (the usual `while i < n { .. i += 1 }`)."""
+    x = _raw_local(b, op, bb)
+    if x is None:
+        return None
+    for gbb, vals, tgt in b.guards_of(bb):
+        t = b.blocks[gbb]["term"]
+        dl = b._op_local(t["discr"]) if isinstance(t.get("discr"), dict) else None
+        if dl is None:
+            continue
+        ds = [d for d in b.defs().get(dl, ()) if d[2] != "partial"]
+        if len(ds) != 1 or ds[0][2] != "assign" or ds[0][3]["k"] != "binop":
+            continue
+        rv = ds[0][3]
+        taken_true = list(vals) != ["0"] and "0" not in [str(v) for v in vals]
+        lt = (rv["op"] == "Lt" and _raw_local(b, rv["a"], gbb) == x) or (rv["op"] == "Gt" and _raw_local(b, rv["b"], gbb) == x)
+        ge = (rv["op"] == "Ge" and _raw_local(b, rv["a"], gbb) == x) or (rv["op"] == "Le" and _raw_local(b, rv["b"], gbb) == x)
+        if not ((lt and taken_true) or (ge and not taken_true and [str(v) for v in vals] == ["0"])):
+            continue
+        # no write of x on a path from the guarded edge to the addition that does not come back through the guard
+        fwd = b.reachable_from(tgt, removed_blocks=(gbb,))
+        between = {n for n in fwd if n == bb or bb in b.reachable_from(n, removed_blocks=(gbb,))}
+        wr = [d for d in b.defs().get(x, ()) if d[0] in between and not (d[0] == bb)]
+        same_bb = [d for d in b.defs().get(x, ()) if d[0] == bb and d[1] != "term"]
+        # inside the addition's own block the checked add is the terminator's condition: statements of that block precede it
+        if wr or any(True for d in same_bb):
+            continue
+        return "dominated by `x < y` with x unchanged since: x + 1 <= y fits the type"
     return None
 
 
